@@ -31,6 +31,7 @@ extern RegisterAtom *g_cell;     /* arbitrary valid word (ghost) */
 #define RT_E(t, i) ((t)->entry + (i))
 #define RT_A(t, i) ((t)->entry[i].area)
 #define RT_TY(t, i) ((t)->entry[i].type)
+#define RT_W(t, i) (RT_A(t, i)->mem + (t)->entry[i].offset)
 #define RT_ADDRESSED(t, i) (RT_INIT(t) && (i) < (t)->entries)
 
 /* The helper functions below take the entry and its area BY VALUE: a clause
@@ -260,9 +261,9 @@ __CPROVER_requires(__CPROVER_r_ok(t, sizeof(RegisterTable))) \
 __CPROVER_requires(__CPROVER_rw_ok(g_cell, sizeof(RegisterAtom))) \
 __CPROVER_requires(IMPLIES(RT_ADDRESSED(t, idx), RT_ENTRY_OK(t, idx) && RT_AREA_W_OK(t, idx))) \
 __CPROVER_assigns(st_wr_verdict; \
-    RT_ADDRESSED(t, idx) && SPEC_REG_W1(RT_TY(t, idx)): __CPROVER_object_upto(rt_words(t, idx), 1u * sizeof(RegisterAtom)); \
-    RT_ADDRESSED(t, idx) && SPEC_REG_W2(RT_TY(t, idx)): __CPROVER_object_upto(rt_words(t, idx), 2u * sizeof(RegisterAtom)); \
-    RT_ADDRESSED(t, idx) && SPEC_REG_W4(RT_TY(t, idx)): __CPROVER_object_upto(rt_words(t, idx), 4u * sizeof(RegisterAtom))) \
+    RT_ADDRESSED(t, idx) && SPEC_REG_W1(RT_TY(t, idx)): __CPROVER_object_upto(RT_W(t, idx), 1u * sizeof(RegisterAtom)); \
+    RT_ADDRESSED(t, idx) && SPEC_REG_W2(RT_TY(t, idx)): __CPROVER_object_upto(RT_W(t, idx), 2u * sizeof(RegisterAtom)); \
+    RT_ADDRESSED(t, idx) && SPEC_REG_W4(RT_TY(t, idx)): __CPROVER_object_upto(RT_W(t, idx), 4u * sizeof(RegisterAtom))) \
 /* refused -- uninitialised table; not a register of the table ("no such \
  * entry"); wrong type or constraint violated (checked variant); no write \
  * callback; NaN, infinite or subnormal float; the device refuses -- or success */ \
